@@ -31,9 +31,11 @@ def op_text(R, t, style):
             if c:
                 terms.append(("+" if c > 0 else "-") + (v.upper() if style == 3 else v))
         f = Fraction(t[i], sglive.TS)
+        if style == 4 and f:
+            f = f - 1            # the same translation written negative (modulo a lattice vector): y-1/4 for y+3/4
         tt = ""
         if f:
-            tt = "+%d/%d" % (f.numerator, f.denominator) if style != 2 else "+%.6f" % float(f)
+            tt = "%+d/%d" % (f.numerator, f.denominator) if style != 2 else "%+.6f" % float(f)
         if style == 1:      # translation first
             s = (tt + "".join(terms))
         else:
@@ -178,7 +180,7 @@ def run(ctx):
         for trial in range(2):
             perm = ops[:]
             ctx.rng.shuffle(perm)
-            for style in (0, 1, 2, 3):
+            for style in (0, 1, 2, 3, 4):
                 try:
                     texts = [op_text(R, t, style) for R, t in perm]
                     live = [getSymOp(s) for s in texts]
